@@ -1800,6 +1800,12 @@ void recursive_parse_list_item(mmd_engine * e, token * block) {
 	// Strip list marker from first line
 	token_remove_first_child(block->child);
 
+	if (block->child->child && (block->child->child->start > block->child->start)) {
+		// The line now begins after the marker
+		block->child->len -= block->child->child->start - block->child->start;
+		block->child->start = block->child->child->start;
+	}
+
 	// Remove one indent level from all lines to allow recursive parsing
 	deindent_block(e, block);
 
